@@ -347,6 +347,7 @@ func run(t *vlib.T) {
 	setupEngine()
 	objs := objects()
 	alpha := alphabet(t.Thorough())
+	alphaSmall := alphabet(false)
 	limits := []int{6}
 	depth, dev := 3, 1
 	if t.Thorough() {
@@ -388,14 +389,26 @@ func run(t *vlib.T) {
 				}
 				if len(seq) >= 2 {
 					s := append([]lookup{}, seq...)
+					d := dev
+					if t.Thorough() && (len(s) == depth || limit != limits[0]) {
+						d = 1 // deepest histories and the second limit: one eviction-order deviation
+					}
 					t.Case(fmt.Sprintf("hist/limit%d/prefill%d/%v", limit, pf, s), func() *vlib.Outcome {
-						return exploreHistory(limit, pf, s, dev, objs)
+						return exploreHistory(limit, pf, s, d, objs)
 					})
 				}
 				if len(seq) == depth {
 					return
 				}
-				for _, l := range alpha {
+				// the deepest level of the thorough tier uses the smaller (quick) alphabet
+				al := alpha
+				if t.Thorough() && len(seq) >= 2 {
+					al = alphaSmall
+				}
+				if t.Thorough() && limit != limits[0] && len(seq) == depth-1 {
+					return // the second limit is explored one level less deep
+				}
+				for _, l := range al {
 					rec(append(seq, l))
 				}
 			}
@@ -410,7 +423,7 @@ func run(t *vlib.T) {
 	}
 	for _, pf := range real {
 		pf := pf
-		for _, a := range alpha {
+		for _, a := range alphaSmall {
 			for _, b := range alpha {
 				s := []lookup{a, b, a}
 				t.Case(fmt.Sprintf("real/prefill%d/%v", pf, s), func() *vlib.Outcome {
